@@ -23,13 +23,42 @@ def _solve_one(task):
         res = str(r)
         model = None
         reason = ""
-        if r == z3.sat and want_model:
-            try:
-                model = s.model().sexpr()
-            except Exception:
+        if r == z3.sat:
+            # a `sat` on a query with quantifiers/lambdas is only believed when it is reproducible: z3 has been
+            # seen to answer sat and, on the identical text, unsat.  Any unsat wins (unsat answers are what the
+            # trusted base T-SMT relies on); sat needs two further agreeing runs.
+            if want_model:
+                try:
+                    model = s.model().sexpr()
+                except Exception:
+                    model = None
+            votes = []
+            for seed in (7, 23):
+                sx = z3.Solver()
+                sx.set("timeout", timeout_ms)
+                sx.set("random_seed", seed)
+                sx.from_string(smt2)
+                votes.append(sx.check())
+            if any(v == z3.unsat for v in votes):
+                return (name, "unsat", "z3-5.1(py,reseeded)", int((time.time() - t0) * 1000), None,
+                        "first run answered sat, a reseeded run answered unsat")
+            if not all(v == z3.sat for v in votes):
+                res = "unknown"
+                reason = "sat not reproducible"
                 model = None
+                r = z3.unknown
         if r == z3.unknown:
             reason = s.reason_unknown()
+            # z3 gives up early on some queries with lambda arrays ("incomplete (theory array)") depending on the
+            # random seed only: retry reseeded before changing configuration (any unsat is an answer)
+            if (time.time() - t0) * 1000 < timeout_ms * 0.8:
+                for seed in (3, 11, 42, 5):
+                    sx = z3.Solver()
+                    sx.set("timeout", timeout_ms)
+                    sx.set("random_seed", seed)
+                    sx.from_string(smt2)
+                    if sx.check() == z3.unsat:
+                        return (name, "unsat", f"z3-5.1(py,seed={seed})", int((time.time() - t0) * 1000), None, "")
             # second attempt: different configuration
             s2 = z3.Solver()
             s2.set("timeout", timeout_ms)
@@ -102,7 +131,7 @@ def discharge(obligations, timeout_ms=60000, procs=None, want_model=True):
 def _cover_one(task):
     """-> 'ok' | 'infeasible' (branch conditions/precondition alone are contradictory: a path the weakened
     feasibility check explored needlessly) | 'vacuous' (only assumed contract clauses make it contradictory)"""
-    name, smt2_full, smt2_hard = task
+    name, smt2_full, smt2_hard, smt2_nobranch = task
     try:
         s = z3.Solver()
         s.set("timeout", 5000)
@@ -116,6 +145,14 @@ def _cover_one(task):
         s2.from_string(smt2_hard)
         if s2.check() == z3.unsat:
             return (name, "infeasible")
+        if smt2_nobranch is not None:
+            # contract clauses contradict only this particular combination of branch decisions: the path is
+            # excluded by (proved or assumed) contract facts - pruning, not vacuity
+            s3 = z3.Solver()
+            s3.set("timeout", 10000)
+            s3.from_string(smt2_nobranch)
+            if s3.check() != z3.unsat:
+                return (name, "pruned")
         return (name, "vacuous")
     except Exception as ex:
         return (name, "ok")
@@ -126,16 +163,22 @@ def cover_tasks(covers):
     for cv in covers:
         name, pc = cv[0], cv[1]
         hard = cv[2] if len(cv) > 2 else None
+        nobranch = cv[3] if len(cv) > 3 else None
         s = z3.Solver()
         for c in pc:
             s.add(c)
-        h = None
+        h = nb = None
         if hard is not None:
             s2 = z3.Solver()
             for c in hard:
                 s2.add(c)
             h = s2.to_smt2()
-        tasks.append((name, s.to_smt2(), h))
+        if nobranch is not None:
+            s3 = z3.Solver()
+            for c in nobranch:
+                s3.add(c)
+            nb = s3.to_smt2()
+        tasks.append((name, s.to_smt2(), h, nb))
     return tasks
 
 
